@@ -16,6 +16,10 @@ H3  get_state() has unit trace whenever the trace is non-zero; the Matsubara
     coefficients handed to the back-end are real and are the documented cells
     (eta function uninterpreted); the state is Hermitian for Hermitian G and real
     coefficients at arbitrary (symbolic) coupling.
+H4  degeneracy reduction: TIBaseBackend._unique on symbolic values (all coincidence
+    patterns) returns first-occurrence representatives and the matching 0/1 projector; for
+    coupling operators with repeated eigenvalues (d=3, d=4) and symbolic coefficients the
+    back-end states equal those of the same network without reduction.
 Outside: equality with the exact reduced thermal state at non-zero coupling,
 independence of n_steps, weak-coupling limit, positivity.
 """
@@ -395,6 +399,103 @@ class HermitianCoupled(Case):
         return obs
 
 
+class UniqueLocal(Case):
+    """H4 (local): TIBaseBackend._unique on SYMBOLIC values (every coincidence pattern is a
+    path): `indices` are the first occurrences of the distinct values in order, every
+    position belongs to exactly one class, classes group exactly the equal values, i.e.
+    proj.T @ values[indices] == values.  Pure index logic."""
+    functions = ("TIBaseBackend._unique",)
+    stubs = ()
+    env = {"extra": SYM_EXTRA}
+    validate = False         # inputs are small integers decided per path; nothing numeric to validate
+
+    def __init__(self, d, pairs):
+        self.d, self.pairs = d, pairs
+        self.id = "H4/unique_local_d%d%s" % (d, "_pairs" if pairs else "")
+        self.bounds = {"d": d, "values": "pairs (as for the vertical legs)" if pairs else "scalars (horizontal legs)",
+                       "coincidence_patterns": "all (path forking on ==)"}
+
+    def run(self, inp):
+        d = self.d
+        vals = [inp.real("v%d" % i) for i in range(d)]
+        if self.pairs:
+            second = [inp.real("w%d" % i) for i in range(d)]
+            values = list(zip(vals, second))
+        else:
+            values = list(vals)
+        indices, proj = TIBaseBackend._unique(values if not self.pairs else zip(vals, second))
+        indices = [int(i) for i in indices]
+        proj = np.asarray(proj)
+        obs = [Ob.holds("projector shape", proj.shape == (len(indices), d)),
+               Ob.holds("entries are 0/1, every position in exactly one class",
+                        all(int(proj[:, i].sum()) == 1 and set(int(x) for x in proj[:, i]) <= {0, 1} for i in range(d)))]
+        ok_first, ok_group, ok_distinct = True, True, True
+        for r, rep in enumerate(indices):
+            members = [i for i in range(d) if int(proj[r, i]) == 1]
+            ok_first = ok_first and bool(members) and members[0] == rep
+            for i in members:
+                ok_group = ok_group and bool(_same_value(values[i], values[rep]))
+        for r1 in range(len(indices)):
+            for r2 in range(r1 + 1, len(indices)):
+                ok_distinct = ok_distinct and not bool(_same_value(values[indices[r1]], values[indices[r2]]))
+        obs.append(Ob.holds("class representative == first occurrence, representatives ascending",
+                            ok_first and indices == sorted(indices)))
+        obs.append(Ob.holds("members of a class carry the representative's value (proj.T @ values[indices] == values)", ok_group))
+        obs.append(Ob.holds("different classes carry different values", ok_distinct))
+        return obs
+
+
+def _same_value(a, b):
+    """equality of two values (scalars or tuples); on a symbolic path the answer is already
+    decided by the path condition, so the branch does not fork further"""
+    if isinstance(a, tuple):
+        return all(_same_value(x, y) for x, y in zip(a, b))
+    return a == b
+
+
+class _NoReduction(TIBaseBackend):
+    """the same back-end with the degeneracy reduction switched off (trivial projector)"""
+    @staticmethod
+    def _unique(values):
+        n = len(list(values))
+        return np.arange(n), np.identity(n, dtype=int)
+
+
+class Degenerate(Case):
+    """H4 (end to end): for a coupling operator with REPEATED eigenvalues and symbolic real
+    coefficients (arbitrary coupling), the states of the real TIBaseBackend (with its
+    degeneracy reduction `_unique`) equal those of the same network without reduction."""
+    functions = HermitianCoupled.functions
+    stubs = HermitianCoupled.stubs + ("oracle: TIBaseBackend with _unique -> trivial projector (non-reduced description)",)
+    env = HermitianCoupled.env
+    timeout_s = 600
+    first_timeout_s = 60
+
+    def __init__(self, diag, n_steps):
+        self.diag, self.n = tuple(diag), n_steps
+        self.id = "H4/degenerate_%s_n%d" % ("_".join(("%g" % x).replace("-", "m").replace(".", "p") for x in diag), n_steps)
+        self.bounds = {"d": len(diag), "coupling_diagonal": list(diag), "n_steps": n_steps,
+                       "coupling": "symbolic real coefficients", "G": "generic real matrix"}
+
+    def run(self, inp):
+        n, d = self.n, len(self.diag)
+        G = inp.arr("G", (d, d))
+        cs = [inp.real("c%d" % k) for k in range(n + 1)]
+        diag = np.array(self.diag, dtype=float)
+        ops = (-diag, diag, np.zeros(d))
+        out = []
+        for cls in (TIBaseBackend, _NoReduction):
+            b = cls(d, 1.0e-14, G, lambda k: cs[k], ops, max_step=n)
+            b.initialise()
+            for _ in range(n - 2):
+                b.compute_step()
+            out.append(list(b.data))
+        obs = [Ob.holds("reduction active", True)]
+        for k in range(len(out[0])):
+            obs.append(Ob.eq("state %d: reduced == non-reduced network" % k, out[0][k], out[1][k]))
+        return obs
+
+
 class ZRotation(Case):
     """H1 at ARBITRARY coupling: the exact reduced thermal state is covariant under rotations
     about the coupling axis, rho(R H R^+) = R rho(H) R^+ for R = diag(u, conj u)/|u| (the
@@ -495,8 +596,12 @@ def _dagger(m):
 
 def cases(tier):
     cs = [Orient(2), Orient(3), Orient(2, cplx=False), Orient(3, cplx=False), Wiring(2), Wiring(3), Repeat(3),
-          Orient(2, d=3), Orient(2, cplx=False, d=3), Normalised("generic"), Normalised("hermitian"), Coefficients(3), HermitianCoupled(2), HermitianCoupled(3), ZRotation(2), ZRotation(3)]
+          Orient(2, d=3), Orient(2, cplx=False, d=3), Normalised("generic"), Normalised("hermitian"), Coefficients(3), HermitianCoupled(2), HermitianCoupled(3), ZRotation(2), ZRotation(3),
+          UniqueLocal(3, False), UniqueLocal(3, True), Degenerate((1, 1, 0), 2), Degenerate((0.5, -0.5, 0.5), 3),
+          Degenerate((1, 1, 0), 3)]
     if tier == "thorough":
         cs += [Orient(4), Orient(5), Orient(4, cplx=False), Wiring(4), Repeat(4), Repeat(2), HermitianCoupled(4), ZRotation(4),
-               Orient(3, d=3), Orient(3, cplx=False, d=3), Orient(4, cplx=False, d=3)]
+               Orient(3, d=3), Orient(3, cplx=False, d=3), Orient(4, cplx=False, d=3),
+               UniqueLocal(4, False), UniqueLocal(4, True), Degenerate((0, 1, 1), 3), Degenerate((0.5, 0.5, -0.5, -0.5), 2),
+               Degenerate((0.5, 0.5, -0.5, -0.5), 3), Degenerate((0.5, -0.5, 0.5, -0.5), 3), Degenerate((1, 0, 1), 4)]
     return cs
